@@ -39,7 +39,9 @@ def strategy_(draw, tier):
                            st.integers(-3, N + 2).map(lambda k: k + 0.5),
                            gen.finite(-3, N + 3), gen.finite(0, N - 1)))
     drift = draw(st.one_of(st.just(0.0), gen.finite(-4, 4), gen.finite(-1.2, 1.2),
-                           st.sampled_from([1.0, -1.0, 2.0, -2.0, 0.5, -0.5])))
+                           st.sampled_from([1.0, -1.0, 2.0, -2.0, 0.5, -0.5]),
+                           # whole multiples of the unit drift rate: the sub-step count sits on a rounding edge
+                           st.integers(-4, 4).map(float), st.integers(-4, 4).map(float)))
     width = draw(st.one_of(gen.finite(0.05, 0.5), gen.finite(0.5, 1.0), gen.finite(1.0, 10.0)))
     return dict(g=g, start=start, drift=drift, level=draw(st.one_of(st.just(1.0), gen.finite(0.1, 50))),
                 width=width, type=draw(st.sampled_from(TYPES)), smear=draw(st.booleans()),
